@@ -971,7 +971,7 @@ def ck_ec_codec(args, r, exc):
     C = o_curve(name, coords)
     Mx, Zx = o_affine(C, coords, r['M']), o_affine(C, coords, r['Z'])
     for P in (Mx, Zx):
-        if P is None or P[0] == 'BAD' or not C.on(P) or P == C.O: return 'encode does not return points on the curve'
+        if P is None or P[0] == 'BAD' or not C.on(P): return 'encode does not return points on the curve'
     if r['d'] != m or type(r['d']) is not int: return f'decode(encode({m})) = {r["d"]!r}'
     if r['d2'] != m: return f'decode of other representations of the same points = {r["d2"]!r}'
     return True
@@ -1087,9 +1087,875 @@ for _name, _cos in EC_COORDS.items():
                    'declared order = published prime order; generator on the curve, not the identity, order*G = identity (module and own arithmetic)'),
             Native(f'ec_codec:{_s}', _f + ' encode/decode', call_ec_codec, ck_ec_codec, in_ec_codec(_name, _co),
                    'decode(encode(m)) == m for m = 0..39 (399), boundary values of (m+1)*gap <= p, random m; encoded points on the curve'),
-            Native(f'ec_hash:{_s}', _f + ' __hash__/__eq__', call_ec_hash, ck_ec_hash, (lambda n_, c_: lambda tier: ((n_, c_, k) for k in (0, 1, 2, 3, 7, 2 ** 100 + 1)))(_name, _co),
-                   'a == b implies hash(a) == hash(b) for three representations of k G, 6 values of k'),
         ]
         if _co != 'affine':
             EC_NATIVES.append(Native(f'ec_agree:{_s}', _f + ' normalize', call_ec_agree, ck_ec_agree, in_ec_scalar(_name, _co),
                                      'k G computed in this coordinate system, in affine and in projective coordinates agree after normalize(); same k as ec_scalar'))
+
+
+def in_ec_hash(tier):
+    for affine_first in (True, False):
+        for name, cos in EC_COORDS.items():
+            for co in cos:
+                if (co == 'affine') == affine_first:
+                    for k in (0, 1, 2, 3, 7, 2 ** 100 + 1): yield (name, co, k)
+
+
+EC_NATIVES.append(Native('ec_hash', 'mpyc.fingroups.EllipticCurvePoint.__hash__/__eq__', call_ec_hash, ck_ec_hash, in_ec_hash,
+                         'a == b implies hash(a) == hash(b) for three representations (normalised, through repeat, scaled) of k G, 6 values of k, every curve x coordinate system (affine systems first)'))
+
+
+# ================================================================= hyperelliptic curves: own polynomial arithmetic over GF(p)
+def ptrim(a):
+    a = list(a)
+    while a and a[-1] == 0: a.pop()
+    return a
+
+
+def padd(a, b, p):
+    n = max(len(a), len(b))
+    return ptrim([((a[i] if i < len(a) else 0) + (b[i] if i < len(b) else 0)) % p for i in range(n)])
+
+
+def psub(a, b, p):
+    n = max(len(a), len(b))
+    return ptrim([((a[i] if i < len(a) else 0) - (b[i] if i < len(b) else 0)) % p for i in range(n)])
+
+
+def pmul(a, b, p):
+    if not a or not b: return []
+    c = [0] * (len(a) + len(b) - 1)
+    for i, x in enumerate(a):
+        for j, y in enumerate(b): c[i + j] = (c[i + j] + x * y) % p
+    return ptrim(c)
+
+
+def pmod(a, b, p):
+    a = ptrim([x % p for x in a]); li = pow(b[-1], -1, p)
+    while len(a) >= len(b):
+        q = a[-1] * li % p; s = len(a) - len(b)
+        for i, y in enumerate(b): a[s + i] = (a[s + i] - q * y) % p
+        a = ptrim(a)
+    return a
+
+
+def pshift(a, t, p):
+    """a(x - t)"""
+    r = []
+    for c in reversed(a):            # Horner in (x - t)
+        r = padd(pmul(r, [-t % p, 1], p), [c % p] if c % p else [], p)
+    return r
+
+
+def hc_valid(f, p, g, D):
+    if not (isinstance(D, tuple) and len(D) == 2): return f'not a divisor: {D}'
+    u, v = D
+    if not u or u[-1] != 1: return 'u not monic'
+    if len(u) - 1 > g: return f'deg u = {len(u) - 1} > genus {g}: not reduced'
+    if len(v) >= len(u): return 'deg v >= deg u'
+    if pmod(psub(f, pmul(v, v, p), p), u, p): return 'u does not divide f - v^2: not in the Jacobian'
+    return None
+
+
+def _hc(spec):
+    return _fg().HyperellipticCurve(**dict(spec))
+
+
+def _hname(spec): return ','.join(f'{k}={v}' for k, v in spec)
+
+
+def _hplain(H, D):
+    """(u, v) as coefficient lists mod p, read from the representation of either class"""
+    if type(D) is not H: return ('NOT-IN-GROUP', type(D).__name__, repr(D)[:80])
+    p = H.field.modulus
+    if issubclass(H, _fg().HCDivisorCL):
+        w = [c.value % p for c in D.value]
+        if len(w) != 6: return ('BAD', '6 coordinates expected')
+        if not any(w): return ([1], [])
+        u1, u0, v1, v0, s, t = w
+        if s != u1 * u1 % p or t != u1 * u0 % p: return ('BAD', 'extended coordinates u1^2, u1 u0 inconsistent')
+        return ([u0, u1, 1], ptrim([v0, v1]))
+    u, v = D.value
+    co = lambda w: list(w.value) if hasattr(w, 'value') else list(w)      # encode() stores bare lists
+    return (ptrim([c % p for c in co(u)]), ptrim([c % p for c in co(v)]))
+
+
+def _hel(H, e):
+    """group element from a literal designator"""
+    if e[0] == 'g': return H.generator ^ e[1]
+    if e[0] == 'gg':                                   # (g^i) @ (g^j): another route to the same element
+        return (H.generator ^ e[1]) @ (H.generator ^ e[2])
+    if e[0] in ('M', 'Z'):
+        M, Z = H.encode(e[1])
+        return M if e[0] == 'M' else Z
+    if e[0] == 'uv': return H((list(e[1]), list(e[2])))
+    raise AssertionError(e)
+
+
+def _hparams(H):
+    return H.field.modulus, H.genus, ptrim([c % H.field.modulus for c in H.f.value])
+
+
+def call_hc_laws(spec, e1, e2, e3):
+    H = _hc(spec)
+    a, b, c = _hel(H, e1), _hel(H, e2), _hel(H, e3)
+    a3 = H(a.value, check=False)
+    e = H.identity
+    P = lambda x: _hplain(H, x)
+    ab_c, a_bc = (a @ b) @ c, a @ (b @ c)
+    nt = {key: (x if isinstance(x, str) else P(x)) for key, x in notation(H, a, b).items()}
+    return dict(a=P(a), b=P(b), c=P(c), ab=P(a @ b), ba=P(b @ a), ab_c=P(ab_c), a_bc=P(a_bc), eq_assoc=(ab_c == a_bc), inv=P(~a), inverse=P(a.inverse()),
+                a_inv=P(a @ ~a), inv_a=P(~a @ a), ae=P(a @ e), ea=P(e @ a), ee=P(e @ e), inv_e=P(~e), e=P(e), aa=P(a @ a), aa_op=P(H.operation(a, a3)),
+                op2=P(H.operation2(a)), inv_ab=P(~(a @ b)), invb_inva=P(~b @ ~a), ab_invb=P((a @ b) @ ~b), eq_self=(a == a3), hash_self=(hash(a) == hash(a3)),
+                eq_ab=(a == b), ne_ab=(a != b), nt=nt, a3=P(a ^ 3), a_minus_b=P(a @ ~b), flags=(H.is_additive, H.is_multiplicative, H.is_abelian, H.is_cyclic))
+
+
+def ck_hc_laws(args, r, exc):
+    spec, e1, e2, e3 = args
+    if exc: return f'unexpected {type(exc).__name__}: {exc}'
+    p, g, f = _hparams(_hc(spec))
+    for key, D in r.items():
+        if isinstance(D, tuple) and len(D) in (2, 3) and isinstance(D[0], (list, str)):
+            if D and D[0] in ('NOT-IN-GROUP', 'BAD'): return f'{key}: {D}'
+            m = hc_valid(f, p, g, D)
+            if m: return f'{key} = {D}: {m}'
+    E = ([1], [])
+    a, b = r['a'], r['b']
+    if r['e'] != E or r['ee'] != E or r['inv_e'] != E: return 'identity is not the divisor (1, 0)'
+    if r['ab_c'] != r['a_bc'] or r['eq_assoc'] is not True: return f'(a@b)@c = {r["ab_c"]} != a@(b@c) = {r["a_bc"]}'
+    if r['ab'] != r['ba']: return 'a@b != b@a'
+    if r['ae'] != a or r['ea'] != a: return 'identity not neutral'
+    if r['a_inv'] != E or r['inv_a'] != E: return 'a @ ~a is not the identity'
+    if r['inv'] != r['inverse'] or r['inv'] != (a[0], ptrim([-c % p for c in a[1]])): return '~a is not (u, -v)'
+    if not (r['aa'] == r['aa_op'] == r['op2']): return f'a@a = {r["aa"]}, operation(a, a) = {r["aa_op"]}, operation2(a) = {r["op2"]} differ'
+    if r['inv_ab'] != r['invb_inva']: return '~(a@b) != ~b @ ~a'
+    if r['ab_invb'] != a: return '(a@b)@~b != a'
+    if r['eq_ab'] != (a == b) or r['ne_ab'] != (a != b) or r['eq_self'] is not True or not r['hash_self']: return 'equality / hash wrong'
+    if r['flags'] != (True, False, True, True): return 'flags wrong'
+    m = ck_notation(True, False, r['nt'], lambda x, y: x == y, r['ab'], r['inv'], r['a_minus_b'], r['a3'])
+    if m: return m
+    return True
+
+
+def call_hc_repeat(spec, e, n):
+    H = _hc(spec)
+    a = _hel(H, e)
+    op = lambda x, y: H.operation(x, y)
+    nv = naive_power(op, H.inversion, H.identity, a, n) if abs(n) <= 64 else r2l_power(op, H.inversion, H.identity, a, n)
+    P = lambda x: _hplain(H, x)
+    return dict(a=P(a), pow=P(a ^ n), rep=P(H.repeat(a, n)), mul=P(n * a), naive=P(nv), eq=((a ^ n) == nv))
+
+
+def ck_hc_repeat(args, r, exc):
+    spec, e, n = args
+    if exc: return f'unexpected {type(exc).__name__}: {exc}'
+    p, g, f = _hparams(_hc(spec))
+    for key in ('a', 'pow', 'rep', 'mul', 'naive'):
+        if r[key][0] in ('NOT-IN-GROUP', 'BAD'): return f'{key}: {r[key]}'
+        m = hc_valid(f, p, g, r[key])
+        if m: return f'{key} = {r[key]}: {m}'
+    if not (r['pow'] == r['rep'] == r['mul'] == r['naive']) or r['eq'] is not True:
+        return f'a^{n} = {r["pow"]}, n-fold application (real operation / inversion only) gives {r["naive"]}'
+    return True
+
+
+def o_jacobian(f, p, g):
+    """all reduced Mumford pairs by exhaustive search (tiny p, g only)"""
+    out = []
+    for d in range(0, g + 1):
+        for uc in itertools.product(range(p), repeat=d):
+            u = list(uc) + [1]
+            for vc in itertools.product(range(p), repeat=d):
+                v = ptrim(vc)
+                if not pmod(psub(f, pmul(v, v, p), p), u, p): out.append((u, v))
+    return out
+
+
+def call_hc_generator(spec):
+    H = _hc(spec)
+    g = H.generator
+    P = lambda x: _hplain(H, x)
+    n = H.order
+    out = dict(order=n, g=P(g), e=P(H.identity), p=H.field.modulus, genus=H.genus, f=ptrim(list(H.f.value)))
+    if n is not None:
+        out['gn'] = P(g ^ n); out['gn1'] = P(g ^ (n + 1)); out['gm'] = P(g ^ (n - 1)); out['inv'] = P(~g)
+        if n < 2 ** 40: out['gdiv'] = {s: P(g ^ (n // s)) for s in o_factor(n)}
+    return out
+
+
+def ck_hc_generator(args, r, exc):
+    spec, = args
+    if exc: return f'unexpected {type(exc).__name__}: {exc}'
+    kw = dict(spec)
+    p, g, f = r['p'], r['genus'], r['f']
+    if not o_is_prime(p): return 'modulus not prime'
+    if 'p' in kw and p != kw['p']: return 'modulus differs from the requested one'
+    if 'l' in kw and (p.bit_length() < kw['l'] or p % 4 != 3): return 'modulus is not a Blum prime of the requested size'
+    if g != kw.get('genus', 2 if kw.get('curvename') == 'kummer1271' else 3): return 'genus differs from the requested one'
+    if len(f) != 2 * g + 2 or f[-1] != 1: return 'f is not monic of degree 2g+1'
+    E = ([1], [])
+    for key in ('g', 'e'):
+        m = hc_valid(f, p, g, r[key])
+        if m: return f'{key} = {r[key]}: {m}'
+    if r['e'] != E: return 'identity is not (1, 0)'
+    n = r['order']
+    if n is None: return True                             # order unknown (documented): nothing declared
+    if r['gn'] != E: return 'generator^order is not the identity'
+    if r['gn1'] != r['g'] or r['gm'] != r['inv']: return 'g^(order+1) != g or g^(order-1) != ~g'
+    if kw.get('curvename') == 'kummer1271':
+        if not o_is_prime(n) or r['g'] == E: return 'kummer1271: declared order not prime or generator trivial'
+        return True
+    # random small Jacobians: the declared order is the class number = size of the Jacobian (own exhaustive count)
+    if p ** g <= 400:
+        J = o_jacobian(f, p, g)
+        if len(J) != n: return f'declared order {n}, the Jacobian has {len(J)} elements (exhaustive count)'
+    if g >= 1:
+        for s, D in r.get('gdiv', {}).items():
+            if D == E: return f'generator has order dividing {n // s}, declared order {n}'
+    return True
+
+
+def call_hc_codec(spec, m):
+    H = _hc(spec)
+    M, Z = H.encode(m)
+    return dict(d=H.decode(M, Z))
+
+
+def ck_hc_codec(args, r, exc):
+    spec, m = args
+    if exc: return f'unexpected {type(exc).__name__}: {exc}'
+    return (r['d'] == m and type(r['d']) is int) or f'decode(encode({m})) = {r["d"]!r}'
+
+
+def call_hc_g1(spec, k):
+    H = _hc(spec)
+    return _hplain(H, H.generator ^ k), _hplain(H, H.generator), _hparams(H)
+
+
+def ck_hc_g1(args, r, exc):
+    spec, k = args
+    if exc: return f'unexpected {type(exc).__name__}: {exc}'
+    D, G, (p, g, f) = r
+    if g != 1: return 'genus 1 expected'
+    K = OFp(p)
+    C = OWeier(K, f[1], f[0], f[2])                       # y^2 = x^3 + f2 x^2 + f1 x + f0
+    def pt(D):
+        u, v = D
+        if u == [1]: return None
+        if len(u) != 2 or u[1] != 1 or len(v) > 1: return ('BAD', D)
+        return (-u[0] % p, v[0] if v else 0)               # u = x - x0, v = y0
+    P = pt(G)
+    if P is None or P[0] == 'BAD' or not C.on(P): return 'generator is not a point of the curve'
+    exp = o_cmul(C, k, P)
+    if abs(k) <= 60 and exp != naive_power(C.add, C.neg, None, P, k): return 'oracle: naive loop disagrees'
+    return pt(D) == exp or f'{k} G = {pt(D)}, own affine law on the genus-1 curve gives {exp}'
+
+
+def call_hc_agree(pspec, k):
+    A = _hc(pspec + (('genus', 2),)); X = _hc(pspec + (('genus', 2), ('coordinates', 'extended')))
+    return _hparams(A), _hparams(X), _hplain(A, A.generator ^ k), _hplain(X, X.generator ^ k)
+
+
+def _shift_t(fA, p): return fA[4] * pow(5, -1, p) % p
+
+
+def ck_hc_agree(args, r, exc):
+    pspec, k = args
+    if exc: return f'unexpected {type(exc).__name__}: {exc}'
+    (p, g, fA), (_, _, fX), DA, DX = r
+    t = _shift_t(fA, p)                                    # the documented isomorphism x -> x - f4/5 making the x^4 coefficient vanish
+    if fX != pshift(fA, t, p): return 'curve of the extended system is not the shifted curve of the affine system'
+    if DX[0] in ('NOT-IN-GROUP', 'BAD'): return f'extended: {DX}'
+    exp = (pshift(DA[0], t, p), pshift(DA[1], t, p))
+    return DX == exp or f'{k} G: extended coordinates give {DX}, affine coordinates (moved through the isomorphism) give {exp}'
+
+
+def call_hc_agree_op(pspec, i, j):
+    """one operation on full-degree operands in both systems (small fields: exercises the exceptional paths of the Costello-Lauter formulas)"""
+    A = _hc(pspec + (('genus', 2),)); X = _hc(pspec + (('genus', 2), ('coordinates', 'extended')))
+    p = A.field.modulus
+    fA = ptrim(list(A.f.value)); t = _shift_t(fA, p)
+    a, b = A.generator ^ i, A.generator ^ j
+    pa, pb, pab, paa = (_hplain(A, x) for x in (a, b, a @ b, a @ a))
+    def tox(D):
+        u, v = pshift(D[0], t, p), pshift(D[1], t, p)
+        if u == [1]: return X.identity
+        F = X.field
+        return X((F(u[1]), F(u[0]), F(v[1] if len(v) > 1 else 0), F(v[0] if v else 0)), check=False)
+    full = lambda D: D[0] == [1] or len(D[0]) == 3
+    if not all(full(D) for D in (pa, pb, pab, paa)): return 'precondition'     # documented: only full-degree divisors (and the identity)
+    xa, xb = tox(pa), tox(pb)
+    xa2 = X(xa.value, check=False)
+    return dict(t=t, ab=(pab, _hplain(X, xa @ xb)), aa=(paa, _hplain(X, xa @ xa)), aa_op=(paa, _hplain(X, X.operation(xa, xa2))),
+                a_inv=(([1], []), _hplain(X, xa @ ~xa)), ba=(pab, _hplain(X, xb @ xa)))
+
+
+def ck_hc_agree_op(args, r, exc):
+    pspec, i, j = args
+    if exc: return f'unexpected {type(exc).__name__}: {exc}'
+    if r == 'precondition': return True
+    p = _hparams(_hc(pspec + (('genus', 2),)))[0]
+    for key in ('ab', 'aa', 'aa_op', 'a_inv', 'ba'):
+        DA, DX = r[key]
+        exp = (pshift(DA[0], r['t'], p), pshift(DA[1], r['t'], p))
+        if DX != exp: return f'{key}: extended coordinates give {DX}, affine coordinates give {exp} (a = {i} G, b = {j} G)'
+    return True
+
+
+def call_hc_exh(spec, D1, D2, D3):
+    H = _hc(spec)
+    a, b, c = H((list(D1[0]), list(D1[1]))), H((list(D2[0]), list(D2[1]))), H((list(D3[0]), list(D3[1])))
+    P = lambda x: _hplain(H, x)
+    return dict(ab=P(a @ b), ba=P(b @ a), ab_c=P((a @ b) @ c), a_bc=P(a @ (b @ c)), a_inv=P(a @ ~a), ae=P(a @ H.identity), aa=P(H.operation2(a)),
+                aa_op=P(H.operation(a, H(a.value, check=False))), order=H.order)
+
+
+def ck_hc_exh(args, r, exc):
+    spec, D1, D2, D3 = args
+    if exc: return f'unexpected {type(exc).__name__}: {exc}'
+    p, g, f = _hparams(_hc(spec))
+    for key in ('ab', 'ba', 'ab_c', 'a_bc', 'a_inv', 'ae', 'aa', 'aa_op'):
+        m = hc_valid(f, p, g, r[key])
+        if m: return f'{key} = {r[key]}: {m}'
+    if r['ab'] != r['ba']: return 'a@b != b@a'
+    if r['ab_c'] != r['a_bc']: return f'(a@b)@c = {r["ab_c"]} != a@(b@c) = {r["a_bc"]}'
+    if r['a_inv'] != ([1], []): return 'a @ ~a != identity'
+    if r['ae'] != (list(D1[0]), list(D1[1])): return 'identity not neutral'
+    if r['aa'] != r['aa_op']: return 'operation2(a) != operation(a, a)'
+    return True
+
+
+def call_hc_encoded(spec, m, m2):
+    H = _hc(spec)
+    M, Z = H.encode(m)
+    M2, _ = H.encode(m2 + m + 1)
+    P = lambda x: _hplain(H, x)
+    out = dict(M=P(M), Z=P(Z))
+    for key, fn in (('M@Z', lambda: M @ Z), ('M@M2', lambda: M @ M2), ('~M', lambda: ~M), ('M@~M', lambda: M @ ~M), ('M^3', lambda: M ^ 3), ('M@g', lambda: M @ H.generator),
+                    ('g@M', lambda: H.generator @ M), ('(M@M2)@~M2', lambda: (M @ M2) @ ~M2)):
+        try: out[key] = P(fn())
+        except Exception as e: out[key] = ('RAISES', type(e).__name__, str(e)[:100])      # noqa
+    return out
+
+
+def ck_hc_encoded(args, r, exc):
+    spec, m, m2 = args
+    if exc: return f'unexpected {type(exc).__name__}: {exc}'
+    p, g, f = _hparams(_hc(spec))
+    for key, D in r.items():
+        if D[0] in ('NOT-IN-GROUP', 'BAD', 'RAISES'): return f'encode({m}): {key}: {D}'
+        msg = hc_valid(f, p, g, D)
+        if msg: return f'encode({m}): {key} = {D} is not a group element: {msg}'
+    if r['M@~M'] != ([1], []): return 'M @ ~M is not the identity'
+    if r['M@g'] != r['g@M']: return 'M @ g != g @ M'
+    if r['(M@M2)@~M2'] != r['M']: return '(M @ M2) @ ~M2 != M'
+    return True
+
+
+def call_hc_ctor(spec, k):
+    H = _hc(spec)
+    a = H.generator ^ k
+    return dict(new=_hplain(H, H()), a=_hplain(H, a), re=_hplain(H, H(a.value)), eq=(H(a.value) == a))
+
+
+def ck_hc_ctor(args, r, exc):
+    if exc: return f'unexpected {type(exc).__name__}: {exc}'
+    if r['new'] != ([1], []): return 'H() is not the identity'
+    return (r['re'] == r['a'] and r['eq'] is True) or 'H(a.value) != a'
+
+
+HC_SPECS = [(('genus', 0), ('p', 3)), (('genus', 1), ('p', 3)), (('genus', 1), ('p', 5)), (('genus', 1), ('p', 7)), (('genus', 1), ('p', 11)), (('genus', 1), ('p', 13)),
+            (('genus', 1), ('p', 251)), (('genus', 1), ('l', 32)), (('genus', 1), ('l', 127)),
+            (('genus', 2), ('p', 3)), (('genus', 2), ('p', 5)), (('genus', 2), ('p', 7)), (('genus', 2), ('l', 8)), (('genus', 2), ('l', 64)),
+            (('coordinates', 'extended'), ('genus', 2), ('l', 64)), (('coordinates', 'extended'), ('genus', 2), ('l', 96)), (('curvename', 'kummer1271'),),
+            (('genus', 3), ('p', 5)), (('genus', 3), ('p', 7)), (('l', 8),), (('l', 64),), (('genus', 4), ('l', 16))]
+HC_SPECS_TH = [(('l', 640),), (('genus', 2), ('l', 256)), (('coordinates', 'extended'), ('genus', 2), ('l', 256)), (('genus', 5), ('p', 11))]
+HC_TINY = [(('genus', 1), ('p', 3)), (('genus', 1), ('p', 5)), (('genus', 1), ('p', 7)), (('genus', 2), ('p', 3)), (('genus', 2), ('p', 5))]
+HC_AGREE = [(('l', 64),), (('l', 96),), (('p', 1000003),)]
+HC_AGREE_SMALL = [(('p', 7),), (('p', 13),), (('p', 19),), (('l', 8),)]     # (p=11, genus=2) and (p=3, genus=3): the constructor does not terminate
+
+
+def _hc_prime(spec):
+    kw = dict(spec)
+    return 2 ** 127 - 1 if kw.get('curvename') else kw['p'] if 'p' in kw else None
+
+
+def _hc_ext(spec): return 'extended' in str(spec) or 'kummer' in str(spec)
+
+
+def _hc_small(spec):
+    kw = dict(spec)
+    return 'p' in kw and kw['p'] < 300 or kw.get('l', 99) <= 8
+
+
+def in_hc_laws(spec):
+    def gen(tier):
+        rnd = random.Random(SEED + 6)
+        small = _hc_small(spec)
+        S = [0, 1, 2, 3, -1, 7] if not small else list(range(0, T(tier, 9, 14)))
+        els = [('g', i) for i in S]
+        for a in els:
+            for b in els:
+                for c in els[:4] if not small else els: yield (spec, a, b, c)
+        big = lambda: ('g', rnd.choice([rnd.getrandbits(200), rnd.getrandbits(40), -rnd.getrandbits(70)]))
+        for _ in range(T(tier, 25, 300)):
+            a, b, c = big(), big(), big()
+            yield (spec, a, b, c)
+            yield (spec, a, ('gg', a[1] - 5, 5), c)           # equal elements reached differently
+            yield (spec, a, ('g', -a[1]), c)
+    return gen
+
+
+def in_hc_repeat(spec):
+    def gen(tier):
+        rnd = random.Random(SEED + 7)
+        els = [('g', 1), ('g', 2), ('g', rnd.getrandbits(100))]
+        for e in els:
+            for n in SMALL_N + BIG_N[::T(tier, 2, 1)]: yield (spec, e, n)
+    return gen
+
+
+def in_hc_codec(spec):
+    def gen(tier):
+        H = _hc(spec); p = H.field.modulus; gap = 256
+        if p <= gap: return
+        top = p // (gap * (2 if _hc_ext(spec) else 1)) - 1      # u1 = 2(m gap + i) < p for the Costello-Lauter encoding
+        rnd = random.Random(SEED + 8)
+        ms = [m for m in list(range(0, T(tier, 30, 300))) + [255, 256, 2 ** 16, 2 ** 32 + 1, 2 ** 52 + 1, 2 ** 53 - 1, 2 ** 53 + 1, 2 ** 64 - 1, 2 ** 100 + 12345, top // 2, top - 1, top] if 0 <= m <= top]
+        ms += [rnd.randrange(top + 1) for _ in range(T(tier, 10, 100))] if top >= 0 else []
+        for m in ms: yield (spec, m)
+    return gen
+
+
+def in_hc_exh(spec):
+    def gen(tier):
+        p, g, f = _hparams(_hc(spec))
+        J = [(tuple(u), tuple(v)) for u, v in o_jacobian(f, p, g)]
+        rnd = random.Random(SEED + 9)
+        if len(J) ** 3 <= T(tier, 3000, 200000):
+            for a in J:
+                for b in J:
+                    for c in J: yield (spec, a, b, c)
+        else:
+            for a in J:
+                for b in J: yield (spec, a, b, rnd.choice(J))
+    return gen
+
+
+def _ks_plain(tier, n=20):
+    rnd = random.Random(SEED + 10)
+    return list(range(-8, 51)) + BIG_N[::2] + [rnd.getrandbits(b) for b in (16, 64, 128, 256) for _ in range(T(tier, 2, n))]
+
+
+HC_NATIVES = []
+for _spec in HC_SPECS + HC_SPECS_TH:
+    _s = _hname(_spec); _f = f'mpyc.fingroups.HyperellipticCurve({_s})'
+    _th = _spec in HC_SPECS_TH
+    _lst = [
+        Native(f'hc_laws:{_s}', _f + ' operation/operation2/inversion', call_hc_laws, ck_hc_laws, in_hc_laws(_spec),
+               'a, b, c generator powers (small exponents: all triples; random exponents up to 200 bits; equal / inverse operands; encoded degree-1 divisors for affine coordinates): '
+               'results in the Jacobian (own polynomial arithmetic), associativity, commutativity, identity, inverses, doubling 3 ways, equality/hash, operator aliases'),
+        Native(f'hc_repeat:{_s}', _f + ' repeat', call_hc_repeat, ck_hc_repeat, in_hc_repeat(_spec),
+               'a^n for 3-4 elements, n = -20..40 and large / patterned n: equals n-fold application with the real operation / inversion'),
+        Native(f'hc_generator:{_s}', _f + ' generator/order', call_hc_generator, ck_hc_generator, (lambda s_: lambda tier: iter([(s_,)]))(_spec),
+               'parameters as requested, f monic of degree 2g+1, generator in the Jacobian, g^order = identity when an order is declared, exact order, order = exhaustive size of the Jacobian for p^g <= 400'),
+    ]
+    if dict(_spec).get('genus') == 1:
+        _lst.append(Native(f'hc_g1:{_s}', _f + ' repeat', call_hc_g1, ck_hc_g1, (lambda s_: lambda tier: ((s_, k) for k in _ks_plain(tier)))(_spec),
+                           'genus 1: k G for k = -8..50, large / patterned and random k against the own affine law on y^2 = x^3 + f2 x^2 + f1 x + f0'))
+    for _n in _lst: _n.thorough_only = _th
+    HC_NATIVES += _lst
+for _spec in HC_TINY:
+    HC_NATIVES.append(Native(f'hc_exhaustive:{_hname(_spec)}', f'mpyc.fingroups.HyperellipticCurve({_hname(_spec)}) operation', call_hc_exh, ck_hc_exh, in_hc_exh(_spec),
+                             'the whole Jacobian enumerated by exhaustive search: all pairs (a, b) with a random c (all triples when |J|^3 <= 3000 / 200000): closure, commutativity, associativity, inverses, doubling'))
+for _ps in HC_AGREE:
+    HC_NATIVES.append(Native(f'hc_agree:{_hname(_ps)}', f'mpyc.fingroups.HyperellipticCurve({_hname(_ps)}, genus=2) affine vs extended', call_hc_agree, ck_hc_agree,
+                             (lambda s_: lambda tier: ((s_, k) for k in _ks_plain(tier, 8)))(_ps),
+                             'genus 2: k G in affine (Cantor) and extended (Costello-Lauter) coordinates agree through the isomorphism x -> x - f4/5; k = -8..50, large and random k'))
+for _ps in HC_AGREE_SMALL:
+    HC_NATIVES.append(Native(f'hc_agree_op:{_hname(_ps)}', f'mpyc.fingroups.HCDivisorCL.operation/operation2 ({_hname(_ps)})', call_hc_agree_op, ck_hc_agree_op,
+                             (lambda s_: lambda tier: ((s_, i, j) for i in range(0, T(tier, 30, 80)) for j in range(-3, T(tier, 30, 80))))(_ps),
+                             'genus 2, small field: a@b, a@a, a@~a for a = iG, b = jG (0 <= i < 30, -3 <= j < 30; thorough 80) in extended coordinates equal the affine results, '
+                             'restricted to full-degree operands and results as documented for HCDivisorCL'))
+
+
+def _hc_specs(tier, ext=None, codec=False):
+    out = []
+    for sp in HC_SPECS + (HC_SPECS_TH if tier != 'quick' else []):
+        if ext is not None and _hc_ext(sp) != ext: continue
+        if codec and (_hc_prime(sp) or 2 ** dict(sp)['l']) <= 256: continue      # encode needs p > gap = 256
+        out.append(sp)
+    return out
+
+
+def in_hc_codec_all(tier):
+    """all parameter sets with p > gap; messages below 2^53 first, for every set, then the larger ones"""
+    per = {sp: [a[1] for a in in_hc_codec(sp)(tier)] for sp in _hc_specs(tier, codec=True)}
+    for big in (False, True):
+        for sp, ms in per.items():
+            for m in ms:
+                if (m >= 2 ** 53) == big: yield (sp, m)
+
+
+def in_hc_encoded(ext):
+    return lambda tier: ((sp, m, m2) for sp in _hc_specs(tier, ext=ext, codec=True) for m in (0, 1, 42) for m2 in (0, 7))
+
+
+def in_hc_ctor(ext):
+    return lambda tier: ((sp, k) for sp in _hc_specs(tier, ext=ext) for k in (0, 1, 2, 5))
+
+
+HC_NATIVES += [
+    Native('hc_codec', 'mpyc.fingroups.HyperellipticCurveDivisor.encode/decode', call_hc_codec, ck_hc_codec, in_hc_codec_all,
+           'every parameter set with p > 256: decode(encode(m)) == m for m = 0..29 (299), 2^16, 2^32+1, 2^52+1, 2^53±1, 2^64-1, 2^100+12345 and the boundary values with (m+1) gap <= p '
+           '(2 (m+1) gap <= p for Costello-Lauter coordinates), random m; messages below 2^53 first'),
+    Native('hc_encoded_affine', 'mpyc.fingroups.HyperellipticCurveDivisor.encode', call_hc_encoded, ck_hc_encoded, in_hc_encoded(False),
+           'affine coordinates, every parameter set with p > 256: the divisors M, Z returned by encode(m) are group elements: in the Jacobian, usable with @, ~, ^ '
+           '(M @ Z, M @ M2, ~M, M @ ~M, M^3, M @ g), 6 message pairs'),
+    Native('hc_encoded_extended', 'mpyc.fingroups.HCDivisorCL.encode', call_hc_encoded, ck_hc_encoded, in_hc_encoded(True),
+           'Costello-Lauter coordinates: the divisors M, Z returned by encode(m) are group elements (in the Jacobian, usable with @, ~, ^), 6 message pairs per parameter set'),
+    Native('hc_ctor_affine', 'mpyc.fingroups.HyperellipticCurveDivisor.__init__', call_hc_ctor, ck_hc_ctor, in_hc_ctor(False),
+           'affine coordinates, every parameter set: H() is the identity; H(value) with check=True accepts the value of k G (k = 0, 1, 2, 5) and gives an equal element'),
+    Native('hc_ctor_extended', 'mpyc.fingroups.HCDivisorCL.__init__', call_hc_ctor, ck_hc_ctor, in_hc_ctor(True),
+           'Costello-Lauter coordinates: H() is the identity; H(value) with check=True accepts the value of k G (k = 0, 1, 2, 5)'),
+]
+
+
+# ================================================================= class groups: own reduction, composition, class number
+def o_cl_reduce(D, a, b):
+    """the unique reduced form equivalent to (a, b, (b^2 - D)/4a): -a < b <= a <= c, b >= 0 if a == c"""
+    while True:
+        assert a > 0 and (b * b - D) % (4 * a) == 0
+        b = b + 2 * a * ((a - b) // (2 * a))               # translation x -> x + k y brings b into (-a, a]
+        c = (b * b - D) // (4 * a)
+        if a > c or (a == c and b < 0):
+            a, b = c, -b                                    # (a, b, c) ~ (c, -b, a)
+            continue
+        return (a, b, c)
+
+
+def o_cl_is_reduced(D, f):
+    a, b, c = f
+    return all(type(x) is int for x in f) and a > 0 and b * b - 4 * a * c == D and -a < b <= a <= c and (b >= 0 or a != c) and math.gcd(a, b, c) == 1
+
+
+def o_cl_forms(D):
+    """all reduced forms of discriminant D (exhaustive)"""
+    out = []
+    for a in range(1, math.isqrt(-D // 3) + 2):
+        for b in range(-a + 1, a + 1):
+            if (b - D) % 2 == 0 and (b * b - D) % (4 * a) == 0:
+                c = (b * b - D) // (4 * a)
+                if o_cl_is_reduced(D, (a, b, c)): out.append((a, b, c))
+    return out
+
+
+def o_cl_compose(D, f1, f2):
+    """Dirichlet composition: move f2 by SL2(Z) to a form whose first coefficient is coprime to a1, solve for B by CRT"""
+    a1, b1, _ = f1; a2, b2, c2 = f2
+    val = lambda x, y: a2 * x * x + b2 * x * y + c2 * y * y
+    for p_, q_ in ((1, 0), (0, 1)) + tuple((x, y) for s in range(2, 60) for x in range(1, s) for y in (s - x, x - s) if math.gcd(x, y) == 1):
+        if math.gcd(a1, val(p_, q_)) == 1: break
+    else:
+        raise AssertionError('oracle: no coprime value found')
+    g, s_, t_ = o_egcd(p_, q_)
+    if g < 0: s_, t_ = -s_, -t_
+    r_, s_ = -t_, s_                                        # [[p, r], [q, s]] with p s - q r = 1
+    assert p_ * s_ - q_ * r_ == 1
+    A2 = val(p_, q_)
+    B2 = 2 * a2 * p_ * r_ + b2 * (p_ * s_ + q_ * r_) + 2 * c2 * q_ * s_
+    assert B2 * B2 - 4 * A2 * val(r_, s_) == D and A2 > 0
+    t = ((B2 - b1) // 2) * pow(a1, -1, A2) % A2 if A2 > 1 else 0
+    B = b1 + 2 * a1 * t                                     # B = b1 mod 2 a1, B = B2 mod 2 A2
+    assert (B - B2) % (2 * A2) == 0 and (B * B - D) % (4 * a1 * A2) == 0
+    return o_cl_reduce(D, a1 * A2, B)
+
+
+def o_cl_inv(D, f): return o_cl_reduce(D, f[0], -f[1])
+
+
+def o_cl_one(D): return (1, 1, (1 - D) // 4)               # D odd
+
+
+def o_cl_pow(D, f, n):
+    return r2l_power(lambda x, y: o_cl_compose(D, x, y), lambda x: o_cl_inv(D, x), o_cl_one(D), f, n)
+
+
+def _cl(spec):
+    fg = _fg()
+    return fg.ClassGroup(Delta=spec[1]) if spec[0] == 'D' else fg.ClassGroup(l=spec[1])
+
+
+def _cplain(G, x):
+    if type(x) is not G: return ('NOT-IN-GROUP', type(x).__name__, repr(x)[:80])
+    v = x.value
+    if not (isinstance(v, tuple) and len(v) == 3): return ('BAD', repr(v)[:80])
+    return tuple(int(c) for c in v) if all(type(c) is int for c in v) else ('BAD', 'coefficients are not ints', repr(v)[:80])
+
+
+def _cel(G, e):
+    if e[0] == 'g': return G.generator ^ e[1]
+    if e[0] == 'f': return G((e[1], e[2], e[3]))
+    raise AssertionError(e)
+
+
+def o_cel(G_D, g, e):
+    """oracle value of an element designator; g = reduced generator form"""
+    if e[0] == 'g': return o_cl_pow(G_D, g, e[1])
+    return o_cl_reduce(G_D, e[1], e[2])
+
+
+def call_cl_laws(spec, e1, e2, e3):
+    G = _cl(spec)
+    a, b, c = _cel(G, e1), _cel(G, e2), _cel(G, e3)
+    a3 = G(a.value, check=False)
+    e = G.identity
+    P = lambda x: _cplain(G, x)
+    ab_c, a_bc = (a @ b) @ c, a @ (b @ c)
+    nt = {key: (x if isinstance(x, str) else P(x)) for key, x in notation(G, a, b).items()}
+    return dict(D=G.discriminant, g=P(G.generator), a=P(a), b=P(b), c=P(c), ab=P(a @ b), ba=P(b @ a), ab_c=P(ab_c), a_bc=P(a_bc), eq_assoc=(ab_c == a_bc),
+                inv=P(~a), inverse=P(a.inverse()), a_inv=P(a @ ~a), inv_a=P(~a @ a), ae=P(a @ e), ea=P(e @ a), ee=P(e @ e), inv_e=P(~e), e=P(e), new=P(G()),
+                aa=P(a @ a), aa_op=P(G.operation(a, a3)), op2=P(G.operation2(a)), eq_self=(a == a3), hash_self=(hash(a) == hash(a3)), eq_ab=(a == b),
+                ne_ab=(a != b), eq_tuple=(a == a.value), nt=nt, flags=(G.is_additive, G.is_multiplicative, G.is_abelian, G.is_cyclic))
+
+
+def ck_cl_laws(args, r, exc):
+    spec, e1, e2, e3 = args
+    if exc: return f'unexpected {type(exc).__name__}: {exc}'
+    D = r['D']
+    if spec[0] == 'D' and D != spec[1]: return 'discriminant differs from the requested one'
+    for key in ('g', 'a', 'b', 'c', 'ab', 'ba', 'ab_c', 'a_bc', 'inv', 'inverse', 'a_inv', 'inv_a', 'ae', 'ea', 'ee', 'inv_e', 'e', 'new', 'aa', 'aa_op', 'op2'):
+        if r[key][0] in ('NOT-IN-GROUP', 'BAD'): return f'{key}: {r[key]}'
+        if not o_cl_is_reduced(D, r[key]): return f'{key} = {r[key]} is not a reduced primitive form of discriminant {D}'
+    g = r['g']
+    A, B, C = o_cel(D, g, e1), o_cel(D, g, e2), o_cel(D, g, e3)
+    one = o_cl_one(D)
+    AB = o_cl_compose(D, A, B)
+    ABC = o_cl_compose(D, AB, C)
+    if ABC != o_cl_compose(D, A, o_cl_compose(D, B, C)) or AB != o_cl_compose(D, B, A): return 'oracle not associative / commutative'
+    Ai = o_cl_inv(D, A)
+    if o_cl_compose(D, A, Ai) != one: return 'oracle: inverse wrong'
+    AA = o_cl_compose(D, A, A)
+    for key, exp in (('a', A), ('b', B), ('c', C), ('ab', AB), ('ba', AB), ('ab_c', ABC), ('a_bc', ABC), ('inv', Ai), ('inverse', Ai), ('a_inv', one), ('inv_a', one),
+                     ('ae', A), ('ea', A), ('ee', one), ('inv_e', one), ('e', one), ('new', one), ('aa', AA), ('aa_op', AA), ('op2', AA)):
+        if r[key] != exp: return f'{key} = {r[key]}, own composition / reduction gives {exp}   [a = {A}, b = {B}, c = {C}]'
+    if r['eq_assoc'] is not True or r['eq_self'] is not True or not r['hash_self']: return 'equality / hash wrong'
+    if r['eq_ab'] != (A == B) or r['ne_ab'] != (A != B): return 'equality of forms wrong'
+    if r['eq_tuple'] is True: return 'form compares equal to a bare tuple'
+    if r['flags'] != (False, True, True, True): return 'flags wrong'
+    m = ck_notation(False, True, r['nt'], lambda x, y: x == y, AB, Ai, o_cl_compose(D, A, o_cl_inv(D, B)), o_cl_compose(D, AA, A))
+    if m: return m
+    return True
+
+
+def call_cl_repeat(spec, e, n):
+    G = _cl(spec)
+    a = _cel(G, e)
+    op = lambda x, y: G.operation(x, y)
+    nv = naive_power(op, G.inversion, G.identity, a, n) if abs(n) <= 64 else r2l_power(op, G.inversion, G.identity, a, n)
+    P = lambda x: _cplain(G, x)
+    return dict(D=G.discriminant, g=P(G.generator), pow=P(a ^ n), rep=P(G.repeat(a, n)), mul=P(a ** n), naive=P(nv), eq=((a ^ n) == nv))
+
+
+def ck_cl_repeat(args, r, exc):
+    spec, e, n = args
+    if exc: return f'unexpected {type(exc).__name__}: {exc}'
+    D = r['D']
+    A = o_cel(D, r['g'], e)
+    exp = o_cl_pow(D, A, n)
+    if abs(n) <= 64 and exp != naive_power(lambda x, y: o_cl_compose(D, x, y), lambda x: o_cl_inv(D, x), o_cl_one(D), A, n): return 'oracle: naive loop disagrees'
+    for key in ('pow', 'rep', 'mul', 'naive'):
+        if r[key] != exp: return f'{key}: a^{n} = {r[key]} for a = {A}, n-fold own composition gives {exp}'
+    return r['eq'] is True or 'a^n != n-fold application (module equality)'
+
+
+def call_cl_generator(spec):
+    G = _cl(spec)
+    g = G.generator; n = G.order
+    P = lambda x: _cplain(G, x)
+    out = dict(D=G.discriminant, order=n, g=P(g), e=P(G.identity), bit_length=G.bit_length, gap=G.gap)
+    if n is not None:
+        out['gn'] = P(g ^ n)
+        out['gdiv'] = {s: P(g ^ (n // s)) for s in o_factor(n)}
+    return out
+
+
+def ck_cl_generator(exact):
+    def ck(args, r, exc):
+        spec, = args
+        if exc: return f'unexpected {type(exc).__name__}: {exc}'
+        D = r['D']
+        if D >= 0 or D % 4 != 1 or not o_is_prime(-D): return 'discriminant is not a negative prime discriminant = 1 mod 4'
+        if spec[0] == 'D' and D != spec[1]: return 'discriminant differs from the requested one'
+        if spec[0] == 'l' and D.bit_length() != spec[1]: return f'discriminant has {D.bit_length()} bits, {spec[1]} requested'
+        if r['bit_length'] != D.bit_length(): return 'bit_length attribute wrong'
+        one = o_cl_one(D)
+        if r['e'] != one: return 'identity is not the principal form'
+        if not o_cl_is_reduced(D, r['g']): return f'generator {r["g"]} is not a reduced form of discriminant {D}'
+        n = r['order']
+        if -D < 2 ** 22:
+            h = len(o_cl_forms(D))
+            if n != h: return f'declared order {n}, exhaustive count of reduced forms gives class number {h}'
+        if n is None: return True                                # order unknown (documented for l > 24)
+        if r['gn'] != one or o_cl_pow(D, r['g'], n) != one: return 'generator^order is not the identity'
+        if exact:
+            for s, f in r['gdiv'].items():
+                if f == one: return f'generator {r["g"]} has order dividing {n // s}, declared order {n}'
+        return True
+    return ck
+
+
+def call_cl_codec(spec, m):
+    G = _cl(spec)
+    M, Z = G.encode(m)
+    return dict(D=G.discriminant, gap=G.gap, M=_cplain(G, M), Z=_cplain(G, Z), d=G.decode(M, Z), MZ=_cplain(G, M @ Z), back=_cplain(G, (M @ Z) @ ~Z))
+
+
+def ck_cl_codec(args, r, exc):
+    spec, m = args
+    G = _cl(spec); D, gap = G.discriminant, G.gap                 # parameters only
+    if (m + 1) * gap > math.isqrt(-D) / 2 or m < 0:
+        return isinstance(exc, AssertionError) or 'message too large for the discriminant: the documented assertion must fire'
+    if isinstance(exc, ValueError) and 'encoding failed' in str(exc):
+        # documented failure: no i in range(0, gap, 4) for which both a_0 = i+3 and a_m = m gap + i + 3 are first coefficients of forms (found through D^((a+1)/4) mod a)
+        ok = lambda a: (pow(D, (a + 1) // 4, a) ** 2 - D) % a == 0
+        return not any(ok(i + 3) and ok(m * gap + i + 3) for i in range(0, gap, 4)) or 'an encoding exists: ValueError not allowed'
+    if exc: return f'unexpected {type(exc).__name__}: {exc}'
+    for key in ('M', 'Z', 'MZ', 'back'):
+        if r[key][0] in ('NOT-IN-GROUP', 'BAD') or not o_cl_is_reduced(D, r[key]): return f'encode({m}): {key} = {r[key]} is not a reduced form of discriminant {D}'
+    if r['MZ'] != o_cl_compose(D, r['M'], r['Z']) or r['back'] != r['M']: return 'encoded forms do not compose as group elements'
+    return (r['d'] == m and type(r['d']) is int) or f'decode(encode({m})) = {r["d"]!r}'
+
+
+def call_cl_ctor(spec, v):
+    G = _cl(spec)
+    return G.discriminant, _cplain(G, G(v if len(v) != 3 or v[2] != 'list' else list(v[:2])))
+
+
+def ck_cl_ctor(args, r, exc):
+    spec, v = args
+    D = _cl(spec).discriminant
+    if len(v) == 3 and v[2] != 'list':
+        a, b, c = v
+        if b * b - 4 * a * c != D or a <= 0: return isinstance(exc, ValueError) or 'wrong discriminant / not positive definite: must raise ValueError'
+    else:
+        a, b = v[:2]
+        # documented: c is derived from the discriminant; a form exists iff 4a | b^2 - D
+        if a <= 0 or (b * b - D) % (4 * a): return isinstance(exc, (ValueError, ZeroDivisionError)) or 'no such form: must raise ValueError'
+    if exc: return f'unexpected {type(exc).__name__}: {exc}'
+    exp = o_cl_reduce(D, a, b)
+    return r[1] == exp or f'constructor gives {r[1]}, own reduction gives {exp}'
+
+
+CL_D = [-3, -7, -11, -19, -23, -31, -43, -47, -59, -67, -71, -79, -83, -103, -127, -163, -167, -191, -199, -227, -239, -311, -359, -431, -479, -1123, -1151, -2063, -3299, -5351]
+CL_L = [2, 3, 4, 5, 6, 7, 8, 9, 10, 12, 14, 16, 18, 20, 32, 48, 64, 128, 256]
+CL_L_TH = [11, 13, 15, 17, 19, 21, 22, 23, 24, 40, 96, 512, 1024, 2048]
+CL_EXH = [-23, -31, -47, -71, -79, -167, -191, -199, -239, -311, -359, -431, -479, -1151, -2063, -3299, -5351]
+
+
+def _cl_specs(tier):
+    return [('D', d) for d in CL_D] + [('l', l) for l in CL_L + (CL_L_TH if tier != 'quick' else [])]
+
+
+def _cl_small_forms(D, count):
+    """reduced forms with small first coefficient (own search)"""
+    out = []
+    a = 1
+    while len(out) < count and a < 400:
+        for b in range(-a + 1, a + 1):
+            if (b - D) % 2 == 0 and (b * b - D) % (4 * a) == 0:
+                c = (b * b - D) // (4 * a)
+                if o_cl_is_reduced(D, (a, b, c)): out.append(('f', a, b, c))
+        a += 1
+    return out[:count]
+
+
+def in_cl_exh(tier):
+    rnd = random.Random(SEED + 11)
+    for D in CL_EXH:
+        F = [('f',) + f for f in o_cl_forms(D)]
+        if len(F) ** 3 <= T(tier, 1500, 100000):
+            for a in F:
+                for b in F:
+                    for c in F: yield (('D', D), a, b, c)
+        else:
+            for a in F:
+                for b in F: yield (('D', D), a, b, rnd.choice(F))
+
+
+def in_cl_laws(tier):
+    rnd = random.Random(SEED + 12)
+    for spec in _cl_specs(tier):
+        D = _cl(spec).discriminant
+        els = [('g', k) for k in (0, 1, 2, 3, -1, 7)] + _cl_small_forms(D, 6)
+        for a in els:
+            for b in els:
+                for c in (els[1], els[-1], els[4]): yield (spec, a, b, c)
+        F = _cl_small_forms(D, 40)
+        big = lambda: rnd.choice([('g', rnd.getrandbits(rnd.choice((8, 40, 200)))), ('g', -rnd.getrandbits(30)), rnd.choice(F)])
+        for _ in range(T(tier, 30, 400)):
+            a, b, c = big(), big(), big()
+            yield (spec, a, b, c); yield (spec, a, a, c)
+            if a[0] == 'g': yield (spec, a, ('g', -a[1]), c)
+
+
+def in_cl_repeat(tier):
+    rnd = random.Random(SEED + 13)
+    for spec in _cl_specs(tier):
+        D = _cl(spec).discriminant
+        els = [('g', 1), ('g', rnd.getrandbits(60))] + _cl_small_forms(D, 8)[-2:]
+        for e in els:
+            for n in SMALL_N + BIG_N[::T(tier, 2, 1)]: yield (spec, e, n)
+
+
+def in_cl_generator(which):
+    def gen(tier):
+        for spec in _cl_specs(tier):
+            D = _cl(spec).discriminant
+            if (which == 'cyclic') == (D % 8 == 1 or -D < 20): yield (spec,)
+    return gen
+
+
+def in_cl_codec(tier):
+    rnd = random.Random(SEED + 14)
+    for spec in _cl_specs(tier):
+        G = _cl(spec); D, gap = G.discriminant, G.gap
+        top = int(math.isqrt(-D) / 2) // gap - 1
+        ms = {-1, top + 1, top + 2} | ({m for m in list(range(0, T(tier, 40, 400))) + [top, top - 1, top // 2] if 0 <= m <= top}) | \
+            ({rnd.randrange(top + 1) for _ in range(T(tier, 20, 200))} if top >= 0 else set())
+        for m in sorted(ms): yield (spec, m)
+
+
+def in_cl_ctor(tier):
+    for spec in [('D', d) for d in (-3, -23, -47, -71, -227, -1123, -5351)] + [('l', 16), ('l', 64)]:
+        D = _cl(spec).discriminant
+        R = T(tier, 14, 40)
+        for a in range(-2, R):
+            for b in range(-R, R):
+                yield (spec, (a, b))
+                if a > 0 and (b * b - D) % (4 * a) == 0:
+                    c = (b * b - D) // (4 * a)
+                    yield (spec, (a, b, c)); yield (spec, (a, b, c + 1)); yield (spec, (a, b, 'list')); yield (spec, (c, -b, a)); yield (spec, (a + b + c, b + 2 * c, c))
+        yield (spec, (0, 1, 2)); yield (spec, (-2, 1, -3)); yield (spec, (1, 1, 2)); yield (spec, (2, 2, 2))
+
+
+CL_NATIVES = [
+    Native('cl_exhaustive', 'mpyc.fingroups.ClassGroupForm.operation/operation2/inversion', call_cl_laws, ck_cl_laws, in_cl_exh,
+           '17 discriminants with class numbers 3..47: the whole class group enumerated by own search; all pairs with a random third form (all triples for small groups): '
+           'composition (NUCOMP), doubling (NUDUPL), inverse, identity against own Dirichlet composition + reduction; results reduced'),
+    Native('cl_laws', 'mpyc.fingroups.ClassGroupForm', call_cl_laws, ck_cl_laws, in_cl_laws,
+           '30 explicit discriminants and 19 bit lengths up to 256 (thorough 33, up to 2048): generator powers and forms with small first coefficient, small sets exhaustively, '
+           'random ones (exponents up to 200 bits), equal / inverse operands: all group axioms, equality, hash, operator aliases against own composition'),
+    Native('cl_repeat', 'mpyc.fingroups.ClassGroupForm repeat', call_cl_repeat, ck_cl_repeat, in_cl_repeat,
+           'every parameter set x 4 forms x n = -20..40 and large / patterned n: equals n-fold application (real operation / inversion) and the own n-fold composition'),
+    Native('cl_generator', 'mpyc.fingroups.ClassGroup', call_cl_generator, ck_cl_generator(True), in_cl_generator('cyclic'),
+           'discriminants = 1 mod 8 (and |D| < 20): discriminant as requested (negative prime, 1 mod 4, bit length), identity principal, declared order = class number by exhaustive count '
+           '(|D| < 2^22), generator^order = identity, generator of exactly the declared order'),
+    Native('cl_generator_trivial', 'mpyc.fingroups.ClassGroup', call_cl_generator, ck_cl_generator(True), in_cl_generator('other'),
+           'discriminants = 5 mod 8 (documented "trivial generator"): same obligations incl. generator of exactly the declared order'),
+    Native('cl_codec', 'mpyc.fingroups.ClassGroupForm.encode/decode', call_cl_codec, ck_cl_codec, in_cl_codec,
+           'every parameter set: m = -1, 0..39 (399), boundary of (m+1) gap <= sqrt(|D|)/2 (AssertionError beyond, as documented), random m: decode(encode(m)) == m, encoded forms reduced, '
+           'ValueError only when no encoding exists'),
+    Native('cl_ctor', 'mpyc.fingroups.ClassGroupForm.__init__', call_cl_ctor, ck_cl_ctor, in_cl_ctor,
+           '9 discriminants: (a, b) and (a, b, c) with -2 <= a < 14, |b| <= 14 (thorough 40), transformed (non-reduced) forms: ValueError exactly for invalid forms, else the own reduced form'),
+]
